@@ -12,6 +12,7 @@
 extern "C" void __gcov_dump(void);  // coverage build only (check/coverage.py)
 #endif
 #include <cstdlib>
+#include <cstring>
 #include <sys/resource.h>
 #include <sys/wait.h>
 #include <unistd.h>
@@ -367,7 +368,13 @@ run_child(const Scenario &sc)
     if (!h.expired()) ++unexpired;
   size_t reserved = 0;
   for (size_t i = 0; i < kN; ++i)
-    if (::dbgroup::thread::_id_vec[i].v_.load()) ++reserved;
+    {
+      // the reservation flag is the first byte of the table element, whatever the element type is (a bare atomic_bool or a
+      // padded / wrapped one): read it without naming members, so that a re-packaging of the table is not a harness error
+      unsigned char b = 0;
+      std::memcpy(&b, reinterpret_cast<const void *>(&(::dbgroup::thread::_id_vec[i])), 1);
+      if (b != 0) ++reserved;
+    }
   std::printf("HBEND unexpired=%zu reserved=%zu\n", unexpired, reserved);
   w.guards.clear();
   delete w.mgr;
